@@ -20,12 +20,12 @@ Inductive qkind := QOrd | QWs | QSpecial.
 (* q_ns: the item must be followed by a character that is neither white space nor a break
    (escaped line break: it swallows the following white space) *)
 Record qitem := QI { q_print : str; q_mean : str; q_kind : qkind; q_ns : bool }.
-Inductive qel := QItem (it : qitem) | QBrk (tws : str) (k : nat) (ind : str).
+Inductive qel := QItem (it : qitem) | QBrk (tws : str) (k : list str) (ind : str).
 
 Definition print_el (e : qel) : str :=
-  match e with QItem it => q_print it | QBrk tws k ind => tws ++ [10] ++ nls k ++ ind end.
+  match e with QItem it => q_print it | QBrk tws k ind => tws ++ [10] ++ blw k ++ ind end.
 Definition mean_el (e : qel) : str :=
-  match e with QItem it => q_mean it | QBrk _ k _ => fold_sep k end.
+  match e with QItem it => q_mean it | QBrk _ k _ => fold_sep (length k) end.
 Definition print_els (E : list qel) : str := flat_map print_el E.
 Definition mean_els (E : list qel) : str := flat_map mean_el E.
 
@@ -74,7 +74,7 @@ Fixpoint els_wf (double : bool) (E : list qel) : Prop :=
       (q_ns it = true -> next_solid E') /\
       els_wf double E'
   | QBrk tws k ind :: E' =>
-      Forall wsq tws /\ Forall wsq ind /\
+      Forall wsq tws /\ Forall wsq ind /\ Forall (Forall wsq) k /\
       (match E' with
        | QBrk _ _ _ :: _ => False
        | QItem it :: _ => q_kind it <> QWs
@@ -230,32 +230,40 @@ Proof.
   rewrite (peek_after _ _ _ _ Hr). cbn [bind]. rewrite H5, H2. reflexivity.
 Qed.
 
-Lemma flow_breaks_spec : forall k fuel s chunks ind x t, Forall wsq ind -> solid x ->
-  s_rest s = nls k ++ ind ++ x :: t -> (k < fuel)%nat ->
-  flow_scalar_breaks_f fuel s chunks = Ok (after s (nls k ++ ind), chunks ++ repeat [10] k).
+Lemma blw_cons w ws : blw (w :: ws) = w ++ [10] ++ blw ws.
+Proof. unfold blw. cbn [map concat]. rewrite <- app_assoc. reflexivity. Qed.
+
+Lemma blw_length ws : (length ws <= length (blw ws))%nat.
+Proof. induction ws as [|w ws IH]; [cbn; lia|]. rewrite blw_cons, !app_length. cbn [length]. lia. Qed.
+
+Lemma flow_breaks_spec : forall (k : list str) fuel s chunks ind x t, Forall (Forall wsq) k -> Forall wsq ind -> solid x ->
+  s_rest s = blw k ++ ind ++ x :: t -> (length k < fuel)%nat ->
+  flow_scalar_breaks_f fuel s chunks = Ok (after s (blw k ++ ind), chunks ++ repeat [10] (length k)).
 Proof.
-  induction k as [|k IH]; intros fuel s chunks ind x t Hind Hx Hr Hf; (destruct fuel as [|f]; [lia|]);
+  induction k as [|w k IH]; intros fuel s chunks ind x t Hk Hind Hx Hr Hf; (destruct fuel as [|f]; [cbn [length] in Hf; lia|]);
     cbn [flow_scalar_breaks_f].
-  - cbn [nls repeat app] in *. destruct Hx as (_ & _ & H3 & H4 & _).
+  - cbn [blw map concat app length repeat] in *. destruct Hx as (_ & _ & H3 & H4 & _).
     rewrite (skip_while_spec (fun ch => mem_N ch in_scan_flow_scalar_breaks_0) ind s x t); [| | apply Forall_wsq_nocr; exact Hind | exact H3 | exact Hr].
     2:{ eapply Forall_impl; [|exact Hind]. intros c Hc. apply wsq_fb0. exact Hc. }
     cbn [bind]. rewrite (peek_after _ _ _ _ Hr). cbn [bind]. rewrite H4. rewrite app_nil_r. reflexivity.
-  - rewrite nls_S in Hr. cbn [app] in Hr.
-    rewrite (skip_while_spec (fun ch => mem_N ch in_scan_flow_scalar_breaks_0) [] s 10 (nls k ++ ind ++ x :: t)); [| constructor | constructor | reflexivity | exact Hr].
-    cbn [bind after fold_left]. rewrite (peek0 _ _ _ Hr). cbn [bind].
+  - inversion Hk as [|? ? Hw Hk']; subst. rewrite blw_cons in Hr.
+    assert (Hr0 : s_rest s = w ++ 10 :: (blw k ++ ind ++ x :: t)) by (rewrite Hr, <- ?app_assoc; reflexivity).
+    rewrite (skip_while_spec (fun ch => mem_N ch in_scan_flow_scalar_breaks_0) w s 10 (blw k ++ ind ++ x :: t)); [| | apply Forall_wsq_nocr; exact Hw | reflexivity | exact Hr0].
+    2:{ eapply Forall_impl; [|exact Hw]. intros c Hc. apply wsq_fb0. exact Hc. }
+    cbn [bind]. pose proof (rest_after _ _ _ Hr0) as Hr1. rewrite (peek0 _ _ _ Hr1). cbn [bind].
     replace (mem_N 10 in_scan_flow_scalar_breaks_1) with true by reflexivity.
-    rewrite (scan_line_break_lf _ _ Hr). cbn [bind].
-    rewrite (IH f _ (chunks ++ [[10]]) ind x t Hind Hx); [| apply (rest_after [10]); exact Hr | lia].
-    rewrite nls_S. cbn [app]. rewrite after_cons. cbn [after fold_left repeat]. rewrite <- app_assoc. reflexivity.
+    rewrite (scan_line_break_lf _ _ Hr1). cbn [bind].
+    rewrite (IH f _ (chunks ++ [[10]]) ind x t Hk' Hind Hx); [| apply (rest_after [10]); exact Hr1 | cbn [length] in Hf; lia].
+    rewrite blw_cons. cbn [length repeat]. rewrite <- !after_app, <- ?app_assoc. reflexivity.
 Qed.
 
 (* a line break with the white space around it *)
-Lemma spaces_break s tws k ind x t : Forall wsq tws -> Forall wsq ind -> solid x ->
-  s_rest s = (tws ++ [10] ++ nls k ++ ind) ++ x :: t ->
-  scan_flow_scalar_spaces s = Ok (after s (tws ++ [10] ++ nls k ++ ind), fold_chunks k).
+Lemma spaces_break s tws (k : list str) ind x t : Forall wsq tws -> Forall wsq ind -> Forall (Forall wsq) k -> solid x ->
+  s_rest s = (tws ++ [10] ++ blw k ++ ind) ++ x :: t ->
+  scan_flow_scalar_spaces s = Ok (after s (tws ++ [10] ++ blw k ++ ind), fold_chunks (length k)).
 Proof.
-  intros Htws Hind Hx Hr. unfold scan_flow_scalar_spaces.
-  assert (Hr0 : s_rest s = tws ++ 10 :: (nls k ++ ind ++ x :: t)) by (rewrite Hr, <- ?app_assoc; reflexivity).
+  intros Htws Hind Hk Hx Hr. unfold scan_flow_scalar_spaces.
+  assert (Hr0 : s_rest s = tws ++ 10 :: (blw k ++ ind ++ x :: t)) by (rewrite Hr, <- ?app_assoc; reflexivity).
   rewrite (count_while_rest _ s tws 10 _ Hr0); [| | reflexivity].
   2:{ eapply Forall_impl; [|exact Htws]. intros c Hc. apply wsq_fs0. exact Hc. }
   cbn [bind]. rewrite (forward_after tws s _ (Forall_wsq_nocr _ Htws) Hr0). cbn [bind].
@@ -266,8 +274,8 @@ Proof.
   rewrite (scan_line_break_lf _ _ Hr1). cbn [bind].
   pose proof (rest_after [10] _ _ Hr1) as Hr2.
   unfold scan_flow_scalar_breaks.
-  rewrite (flow_breaks_spec k _ _ [] ind x t Hind Hx Hr2).
-  2:{ unfold fuel_of. rewrite Hr2, app_length, nls_length. lia. }
+  rewrite (flow_breaks_spec k _ _ [] ind x t Hk Hind Hx Hr2).
+  2:{ unfold fuel_of. rewrite Hr2, app_length. pose proof (blw_length k) as Hbl. clear - Hbl. unfold str in *. lia. }
   cbn [bind app]. replace (is_lf [10]) with true by reflexivity. cbn [negb].
   rewrite <- !after_app. f_equal. f_equal. destruct k; reflexivity.
 Qed.
@@ -503,7 +511,7 @@ Section Machine.
           -- rewrite <- after_app. cbn [print_els flat_map print_el app]. rewrite Ep. reflexivity.
           -- rewrite H2. cbn [mean_els flat_map mean_el]. ccat2.
     - (* a line break *)
-      cbn [els_wf] in Hwf. destruct Hwf as (Htws & Hind & Hnext & Hwf').
+      cbn [els_wf] in Hwf. destruct Hwf as (Htws & Hind & Hks & Hnext & Hwf').
       assert (Hns : next_solid E).
       { destruct E as [|[it'|? ? ?] E']; cbn [next_solid]; auto. }
       assert (HS : PSP (QBrk tws k ind :: E)).
@@ -512,15 +520,15 @@ Section Machine.
         destruct f as [|f]; [lia|]. cbn [flow_scalar_f].
         cbn [print_els flat_map print_el] in Hr. fold (print_els E) in Hr.
         destruct (els_head_solid double quote E x tl Hq Hwf' Hns) as (c & r & Ec & Hc).
-        assert (Hr' : s_rest s = (tws ++ [10] ++ nls k ++ ind) ++ c :: r).
+        assert (Hr' : s_rest s = (tws ++ [10] ++ blw k ++ ind) ++ c :: r).
         { rewrite Hr, <- ?app_assoc. rewrite <- Ec. unfold ENDT. rewrite <- ?app_assoc. reflexivity. }
         assert (Hpk : exists y, peek s 0 = Ok y /\ (wsq y \/ y = 10)).
         { destruct tws as [|y tws']; [|inversion Htws; subst]; cbn [app] in Hr'; eexists; (split; [eapply peek0; exact Hr'|]); auto. }
         destruct Hpk as (y & Hpk & Hy). rewrite Hpk. cbn [bind]. rewrite (peek_not_quote y Hy). cbn [negb].
-        rewrite (spaces_break s tws k ind c r Htws Hind Hc Hr'). cbn [bind].
+        rewrite (spaces_break s tws k ind c r Htws Hind Hks Hc Hr'). cbn [bind].
         pose proof (rest_after _ _ _ Hr') as Hr1.
-        destruct (IHN [] (after s (tws ++ [10] ++ nls k ++ ind)) [] chunks (fold_chunks k)
-                      (fuel_of (after s (tws ++ [10] ++ nls k ++ ind))) f) as (CH & H1 & H2).
+        destruct (IHN [] (after s (tws ++ [10] ++ blw k ++ ind)) [] chunks (fold_chunks (length k))
+                      (fuel_of (after s (tws ++ [10] ++ blw k ++ ind))) f) as (CH & H1 & H2).
         - constructor.
         - rewrite Hr1. symmetry. exact Ec.
         - unfold fuel_of. rewrite Hr1, <- Ec. rewrite app_length.
